@@ -291,6 +291,8 @@ def cut_to_order(H, order):
     """
     _H = H.copy()
     max_order = max_edge_order(H)
+    if max_order is None:  # null network: nothing to cut
+        return _H
     if order > max_order:
         raise XGIError(f"The order must be less than or equal to {max_order}")
     if order != max_order:
